@@ -96,6 +96,18 @@ class NumberType(Type):
                 else:
                     with UnitEnvironment(env.units):
                         self.value = Quantity(value, self.unit).value(unit)
+                if self.dtype is int:
+                    self.value = self._whole(self.value)
                 self.unit = unit
         return self
+
+    @staticmethod
+    def _whole(value):
+        """ Integer nodes keep integers: a converted value that is a whole number up to rounding is stored as int
+        """
+        numbers = np.asarray(value, dtype=float)
+        whole = np.rint(numbers)
+        if np.all(np.isclose(numbers, whole, rtol=Numeric.PRECISION, atol=0)):
+            return whole.astype(int).tolist() if numbers.shape else int(whole)
+        return value
  
